@@ -8,6 +8,23 @@
 #include "vharness.h"
 #define V_STUB_BUG_DIAG
 #include "stubs.h"
+/* ghost obligation at the allocation of a FOAM node: the node must have room for the number of slots the
+ * file claims (g_expect_slots, set by the harness from the count field).  In the must-refuse class the
+ * path ends there: the obligation is decided at the allocation, before any store into the node. */
+static Length g_expect_slots; static int g_expect_on;
+static void v_alloc_hook(unsigned code, ULong size)
+{
+	if (g_expect_on && code == OB_Foam) {
+		CHECK("foamFrBuffer: the node allocated for an n-ary tag has room for the count read from the file",
+		      size >= sizeof(struct foamHdr) && g_expect_slots <= (size - sizeof(struct foamHdr)) / sizeof(Foam));
+#ifdef NATIVE_REPLAY
+		exit(v_replay_failed ? 1 : 0);
+#else
+		__CPROVER_assume(0);
+#endif
+	}
+}
+#define V_ALLOC_HOOK(code, size) v_alloc_hook(code, size)
 #define C_BUFFER_HARNESS_SUPPORT
 #define C_BUFFER_STO_REFUSING
 #define V_ALLOC_FOAM_NODES
@@ -16,6 +33,12 @@
 
 #ifndef V_DEC_MAX
 # define V_DEC_MAX 24
+#endif
+
+/* the float codecs are C19's (xfloat.c): here only "6 / 10 bytes consumed" matters */
+#ifndef NATIVE_REPLAY
+void xsfToNative(XSFloat *px, SFloat *pf) { SFloat nd; (void) px; *pf = nd; }
+void xdfToNative(XDFloat *px, DFloat *pf) { DFloat nd; (void) px; *pf = nd; }
 #endif
 
 /* Decoder harness buffer: argv is an object of exactly V_DEC_MAX bytes, argc <= V_DEC_MAX is symbolic
@@ -36,27 +59,43 @@ static Buffer v_mk_dec_buffer(Length argc, const UByte *data)
 	return b;
 }
 
+/* case split on whether some length/count field of the node decodes to a negative int (a damaged count):
+ *   V_NO_NEG_LEN: none does;   V_NEG_LEN: one does -- every path must refuse, reachability marker before the call */
+#if defined(V_NO_NEG_LEN)
+# define V_SPLIT_NEG() ASSUME(!v_spec_neg)
+#elif defined(V_NEG_LEN)
+# define V_SPLIT_NEG() ASSUME(v_spec_neg); VREACH()
+#elif defined(V_MUST_REFUSE)     /* a shape that cannot be in a file ('!'): every path must refuse */
+# define V_SPLIT_NEG() VREACH()
+#else
+# define V_SPLIT_NEG() ((void) 0)
+#endif
+
 /* foamFrBuffer0 (the skipper used to find constants inside a unit): any bytes after the given tag byte.
  * returns => the position moved FORWARD and stayed inside the contents. */
-static void v_dec0(int tagbyte)
+static void v_dec0(int tagbyte, Length argc, UByte *data, int lf)
 {
-	INPUT(Length, argc); V_INPUT_ARR(UByte, data, V_DEC_MAX); INPUT(int, lf);
 	ASSUME(argc >= 1 && argc <= V_DEC_MAX);
 	data[0] = (UByte) tagbyte;
 	ASSUME(lf == 0 || lf == 1); labelFmt = lf;            /* file-static left by an earlier 'F' field */
 	Buffer b = v_mk_dec_buffer(argc, data); UByte *argv0 = b->argv;
+	long want = v_spec_len(data, (long) argc, lf);
+	V_SPLIT_NEG();
 	foamFrBuffer0(b);
 	CHECK("foamFrBuffer0: returns => position moved forward, inside the contents",
 	      b->pos > 0 && b->pos <= argc && b->argc == argc && b->argv == argv0);
+	CHECK("foamFrBuffer0: returns => the bytes were a well-formed node and exactly its encoded length was consumed",
+	      want == -2 || (want >= 1 && (long) b->pos == want));
+#if !defined(V_NEG_LEN) && !defined(V_MUST_REFUSE)
 	VREACH();
+#endif
 }
 
 /* foamFrBuffer (the tree builder): any bytes after the given tag byte.
  * returns => a node of the tag the byte denotes, with the arity the table (or the count field) says, the
  * position moved forward inside the contents; every store into the node is inside the node (pointer check). */
-static void v_dec(int tagbyte)
+static void v_dec(int tagbyte, Length argc, UByte *data, int lf)
 {
-	INPUT(Length, argc); V_INPUT_ARR(UByte, data, V_DEC_MAX); INPUT(int, lf);
 	ASSUME(argc >= 1 && argc <= V_DEC_MAX);
 	data[0] = (UByte) tagbyte;
 #ifdef V_COUNT_NEGATIVE          /* must-refuse class: the 4-byte count of an n-ary node has its top bit set */
@@ -70,20 +109,28 @@ static void v_dec(int tagbyte)
 	Buffer b = v_mk_dec_buffer(argc, data); UByte *argv0 = b->argv;
 	int fmt = FOAM_FORMAT_GET(tagbyte), tag = FOAM_FORMAT_REMOVE(tagbyte, fmt);
 #ifdef V_COUNT_NEGATIVE
+	g_expect_slots = (Length)(long)(int) DEC_LE4(data + 1);   /* what the decoder will ask for: int argc = bufGetSInt() */
+	g_expect_on = 1;
 	VREACH();
 #endif
+	long want = v_spec_len(data, (long) argc, lf);
+	V_SPLIT_NEG();
 	Foam r = foamFrBuffer(b);
+	CHECK("foamFrBuffer: returns => the bytes were a well-formed node and exactly its encoded length was consumed",
+	      want == -2 || (want >= 1 && (long) b->pos == want));
 	CHECK("foamFrBuffer: returns => node of the denoted tag, position moved forward inside the contents",
 	      r != 0 && foamTag(r) == tag && b->pos > 0 && b->pos <= argc && b->argc == argc && b->argv == argv0);
 	CHECK("foamFrBuffer: fixed-arity node has the table's arity",
 	      foamInfo(tag).argc != FOAM_NARY ? foamArgc(r) == (Length) foamInfo(tag).argc || tag == FOAM_DFlo : 1);
-#ifndef V_COUNT_NEGATIVE
+#if !defined(V_COUNT_NEGATIVE) && !defined(V_NEG_LEN) && !defined(V_MUST_REFUSE)
 	VREACH();
 #endif
 }
 
 /* one entry point per value of the first byte: the decoders are covered for ALL 256 tag bytes */
-#define H(n)   void h_dec0_##n(void) { v_dec0(n); }  void h_dec_##n(void) { v_dec(n); }
+/* (the nondet inputs are declared in the entry function so that the driver can read them off the trace) */
+#define H_IN   INPUT(Length, argc); V_INPUT_ARR(UByte, data, V_DEC_MAX); INPUT(int, lf)
+#define H(n)   void h_dec0_##n(void) { H_IN; v_dec0(n, argc, data, lf); }  void h_dec_##n(void) { H_IN; v_dec(n, argc, data, lf); }
 #define ROW(h) H(0x##h##0) H(0x##h##1) H(0x##h##2) H(0x##h##3) H(0x##h##4) H(0x##h##5) H(0x##h##6) H(0x##h##7) \
 	       H(0x##h##8) H(0x##h##9) H(0x##h##a) H(0x##h##b) H(0x##h##c) H(0x##h##d) H(0x##h##e) H(0x##h##f)
 ROW(0) ROW(1) ROW(2) ROW(3) ROW(4) ROW(5) ROW(6) ROW(7) ROW(8) ROW(9) ROW(a) ROW(b) ROW(c) ROW(d) ROW(e) ROW(f)
